@@ -166,3 +166,52 @@ Print Assumptions c08_stats_hypotheses_satisfiable.
 Print Assumptions c08_args_no_panic.
 Print Assumptions c08_magnet_topic_no_panic.
 Print Assumptions c08_guards_are_needed.
+
+(* ====================================================================================================== *)
+(** * chrono's range made concrete (X11)
+
+    [c08_show_no_panic] holds for every answer chrono could give ([in_chrono_range] universally quantified). Since
+    X11 chrono 0.4.38's answer is modelled (Model/Calendar.v [chrono_accepts]: i64::try_from, the day number within
+    i32, the year within MIN_YEAR ..= MAX_YEAR) and compared with the real binary in every run of the C07 check;
+    the corollary below is the theorem at that instance, and the range it decides is exactly 0 .. 8210266876799
+    (262142-12-31 23:59:59), the largest second count for which the real binary prints a calendar text. *)
+From Imdl Require Proofs.CrashCalendar Model.Calendar Proofs.CalendarProofs.
+
+Check CrashCalendar.show_no_panic_calendar :
+  forall (url_ok node_ok : bytes -> bool) (stack_budget : N),
+  max_depth <= stack_budget ->
+  forall (term : bool) (ws : list N) (data : bytes),
+  alloc_ok url_ok node_ok data ->
+  finish (show_model url_ok node_ok stack_budget Calendar.chrono_accepts term ws data) <> Panic101.
+Theorem c08_show_no_panic_at_chrono_range :
+  forall (url_ok node_ok : bytes -> bool) (stack_budget : N),
+  max_depth <= stack_budget ->
+  forall (term : bool) (ws : list N) (data : bytes),
+  alloc_ok url_ok node_ok data ->
+  finish (show_model url_ok node_ok stack_budget Calendar.chrono_accepts term ws data) <> Panic101.
+Proof. exact CrashCalendar.show_no_panic_calendar. Qed.
+
+(** its hypotheses hold for a torrent with a creation date inside the range, which the model shows normally *)
+Example c08_show_at_chrono_range_satisfiable :
+  max_depth <= max_depth /\
+  alloc_ok (fun _ => true) (fun _ => true) CrashCalendar.dated_witness /\
+  Calendar.chrono_accepts 951782400 = true /\
+  finish (show_model (fun _ => true) (fun _ => true) max_depth Calendar.chrono_accepts true [4; 7]
+            CrashCalendar.dated_witness) = Ok0.
+Proof. exact CrashCalendar.dated_witness_shows. Qed.
+
+(** the range: chrono has a date for exactly the second counts up to 8210266876799; the creation-date row of the
+    crash model never aborts, inside the range, outside it, or beyond i64 *)
+Check CalendarProofs.accepts_iff : forall n : N, Calendar.chrono_accepts n = true <-> n <= Calendar.cal_max.
+Theorem c08_chrono_range_exact :
+  Calendar.cal_max = 8210266876799 /\
+  forall n : N, Calendar.chrono_accepts n = true <-> n <= Calendar.cal_max.
+Proof. exact (conj eq_refl CalendarProofs.accepts_iff). Qed.
+
+Theorem c08_date_row_never_aborts : forall d : N, date_row Calendar.chrono_accepts d = Val tt.
+Proof. exact CrashCalendar.date_row_calendar. Qed.
+
+Print Assumptions c08_show_no_panic_at_chrono_range.
+Print Assumptions c08_show_at_chrono_range_satisfiable.
+Print Assumptions c08_chrono_range_exact.
+Print Assumptions c08_date_row_never_aborts.
